@@ -2,6 +2,7 @@ import Model.Exc
 import Model.Cli
 import Spec.Exc
 import Spec.Cli
+import Model.ExcShape
 import Drivers.Common
 /-! `vm_c05`: line protocol over `Model.Exc` / `Spec.Exc` / `Model.Cli` / `Spec.Cli`.
 
@@ -10,6 +11,9 @@ import Drivers.Common
                                                                          `Model.Exc.runLoop`, the body run once and repeated — equal to
                                                                          `run` by C05_long_run, linear instead of quadratic in k)
   spec <TAB> <graph> <TAB> <prog>                                     → <final>|<trace>   (Spec.Exc with the closure subtype test)
+  runq <TAB> <cfg> <TAB> <graph> <TAB> <prog> <TAB> <quiet>           → <final>|<trace>   (`Model.Exc.observe`: the run as a script prints it that
+                                                                         was rendered without the markers listed in quiet = `T<i>,F<i>,C<i>.<k>,…`)
+  specq <TAB> <graph> <TAB> <prog> <TAB> <quiet>                      → <final>|<trace>   (the same for Spec.Exc)
   cli <TAB> fixed|pinned <TAB> <input>                                → code=<n> diag=<0|1> out=<m,m,…>
   clispec <TAB> <input>                                               → fail=<0|1> diag=<0|1> out=<m,m,…>
 
@@ -199,6 +203,21 @@ def parseInput (s : String) : Option Input :=
       some (.script steps e)
     | _ => none
 
+/-- `T<i>,F<i>,C<i>.<k>,…` -/
+def parseQuiet (s : String) : Option Quiet :=
+  if s.isEmpty then some ⟨[], [], []⟩ else
+    (s.splitOn ",").foldlM (fun (q : Quiet) t =>
+      if t.startsWith "T" then (nat? (inner t 1 false)).map (fun i => { q with tries := i :: q.tries })
+      else if t.startsWith "F" then (nat? (inner t 1 false)).map (fun i => { q with fins := i :: q.fins })
+      else if t.startsWith "C" then
+        match (inner t 1 false).splitOn "." with
+        | [i, k] => do
+          let i ← nat? i
+          let k ← nat? k
+          some { q with clauses := (i, k) :: q.clauses }
+        | _ => none
+      else none) ⟨[], [], []⟩
+
 def showNats (l : List Nat) : String := ",".intercalate (l.map toString)
 def bit (b : Bool) : String := if b then "1" else "0"
 
@@ -211,6 +230,14 @@ def handle (line : String) : String :=
   | ["iter", cfg, g, p] =>
     match parseCfg cfg, parseGraph g, parseProg p with
     | some cfg, some g, some ⟨fns, .cons (.loop k body) .nil, d⟩ => showRun (Model.Exc.runLoop g cfg fns body k d)
+    | _, _, _ => "bad-op"
+  | ["runq", cfg, g, p, q] =>
+    match parseCfg cfg, parseGraph g, parseProg p, parseQuiet q with
+    | some cfg, some g, some p, some q => showRun (observe q (Model.Exc.run g cfg p))
+    | _, _, _, _ => "bad-op"
+  | ["specq", g, p, q] =>
+    match parseGraph g, parseProg p, parseQuiet q with
+    | some g, some p, some q => showRun (observe q (Spec.Exc.run (Spec.Exc.rulesOf g) p))
     | _, _, _ => "bad-op"
   | ["spec", g, p] =>
     match parseGraph g, parseProg p with
